@@ -71,6 +71,23 @@ func parseD(s string) D {
 var usft = parseD("0.3048006096012192")
 
 func genCrs(r *vproto.Rng, w *bufio.Writer, forceKind string) {
+	fmt.Fprintf(w, "crs %s\n", crsTokens(r, forceKind))
+}
+
+// round replaces d, with a fixed share, by an exact zero or an exact integer (zero-versus-unset and
+// truncation slips only show on such values)
+func round(r *vproto.Rng, d D, lo, hi int64) D {
+	switch r.Intn(10) {
+	case 0, 1:
+		return dInt(0, r.Intn(2))
+	case 2, 3:
+		return dInt(lo+int64(r.U64()%uint64(hi-lo+1)), 0)
+	}
+	return d
+}
+
+// crsTokens draws one description: the 16 tokens of a crs line followed by the grid centre
+func crsTokens(r *vproto.Rng, forceKind string) string {
 	kinds := []string{"geog", "merc", "lcc", "aea", "eqdc", "tmerc"}
 	kind := kinds[r.Intn(len(kinds))]
 	if forceKind != "" {
@@ -79,12 +96,24 @@ func genCrs(r *vproto.Rng, w *bufio.Writer, forceKind string) {
 	lat1 := rnd(r, 5, 70, 10)
 	lat2 := rnd(r, 5, 70, 10)
 	lat0 := rnd(r, 0, 75, 10)
-	if r.Bool() { // southern hemisphere: all three together so that lat1 + lat2 != 0
-		lat0.mant.Neg(lat0.mant)
-		lat1.mant.Neg(lat1.mant)
-		lat2.mant.Neg(lat2.mant)
+	lat1 = round(r, lat1, 5, 70)
+	if lat1.mant.Sign() == 0 {
+		lat1 = dInt(33, 0)
 	}
-	lon0 := rnd(r, -179, 179, 10)
+	lat2 = round(r, lat2, 5, 70)
+	if lat2.mant.Sign() == 0 || r.Chance(0.1) {
+		lat2 = lat1 // tangent cone
+	}
+	lat0 = round(r, lat0, 0, 75)
+	if (kind == "lcc" || kind == "tmerc") && r.Chance(0.03) {
+		lat0 = dInt(90, 0)
+	}
+	if r.Bool() { // southern hemisphere: all three together so that lat1 + lat2 != 0
+		lat0 = D{new(big.Int).Neg(lat0.mant), lat0.scale}
+		lat1 = D{new(big.Int).Neg(lat1.mant), lat1.scale}
+		lat2 = D{new(big.Int).Neg(lat2.mant), lat2.scale}
+	}
+	lon0 := round(r, rnd(r, -179, 179, 10), -179, 179)
 	k0 := rnd(r, 0, 0, 0)
 	switch r.Intn(4) {
 	case 0:
@@ -101,9 +130,8 @@ func genCrs(r *vproto.Rng, w *bufio.Writer, forceKind string) {
 	}
 	fe := rnd(r, -9000000, 9000000, 4)
 	fn := rnd(r, -9000000, 9000000, 4)
-	if r.Chance(0.1) {
-		fe = dInt(0, r.Intn(2))
-	}
+	fe = round(r, fe, -9000000, 9000000)
+	fn = round(r, fn, -9000000, 9000000)
 	var feM, fnM D
 	switch unit {
 	case "metre":
@@ -164,6 +192,9 @@ func genCrs(r *vproto.Rng, w *bufio.Writer, forceKind string) {
 					v = dInt(0, 0)
 				}
 			}
+			if i > 0 && r.Chance(0.25) {
+				v = dInt(0, r.Intn(2))
+			}
 			if i == 0 && v.mant.Sign() == 0 {
 				v = dInt(17, 1)
 			}
@@ -208,7 +239,7 @@ func genCrs(r *vproto.Rng, w *bufio.Writer, forceKind string) {
 	case "lcc", "aea", "eqdc":
 		glat = lat1
 	}
-	fmt.Fprintf(w, "crs %s %s %s %s %s %s %s %s %s %s %s %s %s %s %s %s %s %s\n", kind, lat0, lat1, lat2, lon0, k0, fe, fn, feM, fnM, a, rf, tw, unit, datum, style, glon, glat)
+	return fmt.Sprintf("%s %s %s %s %s %s %s %s %s %s %s %s %s %s %s %s %s %s", kind, lat0, lat1, lat2, lon0, k0, fe, fn, feM, fnM, a, rf, tw, unit, datum, style, glon, glat)
 }
 
 // ---- fixed corpora
@@ -308,6 +339,18 @@ func init() {
 		"4", "42"})
 }
 
+// twin2Corpus: definitions that differ by one parameter being set vs left out (or by nothing that matters)
+var twin2Corpus = [][4]string{
+	{"+proj=merc +lon_0=15 +a=6378137 +rf=298.257223563 +x_0=0 +y_0=0 +k=1", "+proj=merc +lon_0=15 +a=6378137 +rf=298.257223563 +x_0=0 +y_0=0 +k=1 +lat_ts=40", "20", "45"},
+	{"+proj=merc +lon_0=15 +a=6378137 +rf=298.257223563 +x_0=0 +y_0=0 +k=1", "+proj=merc +a=6378137 +rf=298.257223563 +x_0=0 +y_0=0 +k=1", "20", "45"},
+	{"+proj=merc +lon_0=0 +a=6378137 +rf=298.257223563 +x_0=0 +y_0=0 +k=1", "+proj=merc +a=6378137 +rf=298.257223563", "20", "45"},
+	{"+proj=lcc +lat_1=33 +lat_2=45 +lat_0=40 +lon_0=-97 +x_0=0 +y_0=0 +a=6378137 +rf=298.257222101", "+proj=lcc +lat_1=33 +lat_0=40 +lon_0=-97 +x_0=0 +y_0=0 +a=6378137 +rf=298.257222101", "-100", "38"},
+	{"+proj=lcc +lat_1=33 +lat_2=33 +lat_0=40 +lon_0=-97 +x_0=0 +y_0=0 +a=6378137 +rf=298.257222101", "+proj=lcc +lat_1=33 +lat_0=40 +lon_0=-97 +x_0=0 +y_0=0 +a=6378137 +rf=298.257222101", "-100", "38"},
+	{"+proj=longlat +a=6378137 +rf=298.25 +towgs84=1,2,3", "+proj=longlat +a=6378137 +rf=298.25 +towgs84=1,2,3 +lat_0=12", "5", "5"},
+	{"+proj=longlat +a=6378137 +rf=298.25 +towgs84=1,2,3", "+proj=longlat +a=6378137 +rf=298.25 +towgs84=1,2,3,0,0,0,2.5", "5", "5"},
+	{"+proj=tmerc +lat_0=0 +lon_0=9 +k=0.9996 +x_0=500000 +y_0=0 +a=6378137 +rf=298.257223563", "+proj=tmerc +lat_0=0 +lon_0=9 +k=0.9996 +x_0=500000 +y_0=0 +a=6378137 +rf=298.257223563 +zone=32", "10", "50"},
+}
+
 func init() {
 	// every alias of the web Mercator definition against the ESRI text of the same CRS, off the equator
 	for _, n := range []string{"EPSG:3785", "GOOGLE", "EPSG:900913", "EPSG:102113"} {
@@ -393,6 +436,16 @@ func gen(seed uint64, tier string) {
 	}
 	for _, p := range pair2Corpus {
 		fmt.Fprintf(w, "pair2 %s %s %s %s\n", hx(p[0]), hx(p[1]), p[2], p[3])
+	}
+	for _, p := range twin2Corpus {
+		fmt.Fprintf(w, "twin2 %s %s %s %s\n", hx(p[0]), hx(p[1]), p[2], p[3])
+	}
+	// twins: every optional parameter of every projected kind set vs left out, in both notations
+	for _, k := range []string{"merc", "lcc", "aea", "eqdc", "tmerc"} {
+		for om := 1; om <= 7; om++ {
+			f := strings.Fields(crsTokens(r, k))
+			fmt.Fprintf(w, "twin %s %d %s %s\n", strings.Join(f[:16], " "), om, f[16], f[17])
+		}
 	}
 	for _, e := range eqCorpus {
 		fmt.Fprintf(w, "eq %s %s\n", hx(e[0]), hx(e[1]))
